@@ -262,6 +262,8 @@ package sqlite
 //@ props C16 C17 C02 C20 C01 C04
 // every returned record is the row it was scanned from, column by column (C01, C20: what a sweep or a search reports is what is stored)
 //@ site loop 1 backedge assert scanned(rows, record, "ReadPromises")
+// what a sweep reads is exactly what its statement selects on: every returned row satisfies the selection (both back ends, same predicate)
+//@ site loop 1 backedge assert [C04 C16 C17] record.State == 1 && record.Timeout <= cmd.Time
 //@ nopanic C13
 //@ ghostdb store
 //@ requires cmd != nil
@@ -293,6 +295,8 @@ package sqlite
 //@ props C16 C17 C02 C20 C10
 // every returned record is the row it was scanned from, column by column (C01, C20: what a sweep or a search reports is what is stored)
 //@ site loop 1 backedge assert scanned(rows, record, "ReadSchedules")
+// what a sweep reads is exactly what its statement selects on: every returned row satisfies the selection (both back ends, same predicate)
+//@ site loop 1 backedge assert [C10 C16 C17] record.NextRunTime <= cmd.NextRunTime
 //@ nopanic C13
 //@ ghostdb store
 //@ requires cmd != nil
@@ -320,10 +324,13 @@ package sqlite
 //@ props C16 C17 C02 C20 C07 C08
 // every returned record is the row it was scanned from, column by column (C01, C20: what a sweep or a search reports is what is stored)
 //@ site loop 2 backedge assert scanned(rows, record, "ReadTasks")
+// what a sweep reads is exactly what its statement selects on: every returned row satisfies the selection (both back ends, same predicate)
+//@ site loop 2 backedge assert [C07 C08 C16 C17] (record.State & mask(cmd.States)) != 0 && (record.ExpiresAt <= cmd.Time || record.Timeout <= cmd.Time)
 //@ nopanic C13
 //@ ghostdb store
 //@ requires cmd != nil
 //@ requires len(cmd.States) > 0
+//@ loop 1 invariant rangeindex + 1 <= len(cmd.States) && states == maskprefix(cmd.States, rangeindex + 1)
 //@ ensures err != nil ==> result == nil
 //@ ensures err == nil ==> result != nil
 
@@ -331,6 +338,8 @@ package sqlite
 //@ props C16 C17 C02 C20 C07 C08
 // every returned record is the row it was scanned from, column by column (C01, C20: what a sweep or a search reports is what is stored)
 //@ site loop 1 backedge assert scanned(rows, record, "ReadEnqueueableTasks")
+// what a sweep reads is exactly what its statement selects on: every returned row satisfies the selection (both back ends, same predicate)
+//@ site loop 1 backedge assert [C08 C16 C17] record.State == task.Init
 //@ nopanic C13
 //@ ghostdb store
 //@ requires cmd != nil
@@ -352,3 +361,17 @@ package sqlite
 //@ nopanic C13
 //@ requires s != nil && s.config != nil && s.db != nil && s.sq != nil && !closed(s.sq)
 //@ site call Reset assert s.config.Reset
+
+// A flush reaches the worker (C12: a partial batch is released and its requests answered).
+//@ func (*SqliteStoreWorker).Flush
+//@ props C12
+//@ nopanic C13
+//@ records flush
+// the flush channel is created by New and never closed
+//@ requires w != nil && !closed(w.flush)
+
+//@ func (*SqliteStore).Flush
+//@ props C12
+//@ nopanic C13
+//@ requires s != nil && s.worker != nil && !closed(s.worker.flush)
+//@ ensures calls("flush") == 1 && callarg("flush", 0, 0) == s.worker && callarg("flush", 0, 1) == t
